@@ -46,6 +46,22 @@ pub struct InputEvent {
 }
 
 impl InputEvent {
+    /// For an element start: is it an `<svg>` element in the SVG namespace?
+    /// (`None` for other kinds of event.) Works on the raw attribute, so that it
+    /// does not depend on the element's other attributes being resolvable.
+    pub fn starts_real_svg(&self) -> Option<bool> {
+        match &self.event {
+            Event::Start(e) | Event::Empty(e) => Some(
+                e.name().as_ref() == b"svg"
+                    && e.attributes().flatten().any(|a| {
+                        a.key.as_ref() == b"xmlns"
+                            && a.value.as_ref() == b"http://www.w3.org/2000/svg"
+                    }),
+            ),
+            _ => None,
+        }
+    }
+
     pub fn text_string(&self) -> Option<String> {
         match &self.event {
             Event::Text(t) => Some(unescape_text(
